@@ -97,9 +97,9 @@ def shard(acc, tier, idx, n):
                         inc = flat(units[i:j])
                         files = {'main.asm': flat(units[:i]) + [('include', 'inc.asm')] + flat(units[j:]) + tail, 'inc.asm': inc}
                     else:
-                        inc = flat(units[i:k]) + [('include', 'inc2.asm')] + flat(units[l:j])
+                        inc = flat(units[i:k]) + [('include', 'inc-2.b_x.asm')] + flat(units[l:j])
                         files = {'main.asm': flat(units[:i]) + [('include', 'inc.asm')] + flat(units[j:]) + tail,
-                                 'inc.asm': inc, 'inc2.asm': flat(units[k:l])}
+                                 'inc.asm': inc, 'inc-2.b_x.asm': flat(units[k:l])}
                     has_label = any(x in (0, 1, 2, 3, 4, 5, 6) for x in h)
                     ref, out, msg = run_program(
                         acc, PARAMS, ISA, files,
@@ -142,12 +142,12 @@ def placements(acc, idx, n):
                ('d1', 'd1', 'd2'), ('.', 'd1'), ('.', 'd2', 'd1'), ('d2', 'd2', 'd1')]
     places = [(), ('',), ('d1',), ('d2',), ('', 'd1'), ('d1', 'd2'), ('', 'd2'), ('d3',)]
     # a file reached through a nested include and then included again (directly, or through a second child: a diamond)
-    for order in itertools.permutations(['inc.asm', 'deep.asm', 'incb.asm'], 2):
+    for order in itertools.permutations(['inc.asm', 'deep.asm', 'inc-b.asm'], 2):
         for dirs in ((), ('d2',)):
             ctr += 1
             if ctr % n != idx:
                 continue
-            files = {'inc.asm': INC + [('include', 'deep.asm')], 'incb.asm': [('data', 1, [0x53]), ('include', 'deep.asm')],
+            files = {'inc.asm': INC + [('include', 'deep.asm')], 'inc-b.asm': [('data', 1, [0x53]), ('include', 'deep.asm')],
                      ('d2/deep.asm' if dirs else 'deep.asm'): INC_B,
                      'main.asm': [('data', 1, [0x50])] + [('include', f) for f in order] + [('data', 1, [0xEE])]}
             ref = R.RefAsm(PARAMS, files, 'main.asm', dirs).run()
